@@ -16,8 +16,13 @@
      asgs_of items   the assignments (ASet o v / AFlag o b) the units stand for, in order;
      apply_asgs      their effect on the dictionary (flag: True/False; list option: append the raw string;
                      other: store str2type of the string; all mark the key as non-default).
+     pre_parse       pass 1 of DoitMain.run over the options of the loader that precede the sub-command name;
+     parse_execute   Command.parse_execute: parse (pass 2), then params[key] = val for every entry of opt_vals
+                     (parse_execute_update: the code before 7ef8d1a, params.update(opt_vals));  main_run: DoitMain.run;
+     written o l v   v is the value the assignments l give option o: True/False of its last flag, or its last
+                     string converted (Proofs/CmdParseS.v).
    Not covered by the theorems (correspondence check only): abbreviated long options (unique prefixes). *)
-From DoitV Require Import Base CmdParse CmdParseP CmdParseR.
+From DoitV Require Import Base CmdParse CmdParseP CmdParseR CmdParseS.
 Open Scope string_scope.
 Open Scope list_scope.
 
@@ -190,6 +195,311 @@ Theorem C16_pure : forall conv st env argv,
   (let (r1, st1) := parse conv st env argv in parse conv st1 env argv = (r1, st1)).
 Proof. intros. exact (conj (parse_pure conv st env argv) (parse_twice conv st env argv)). Qed.
 Print Assumptions C16_pure.
+
+(* ---------------------------------------------------------------- options before the sub-command name *)
+(* `doit <options of the loader> <sub-command> <options> <positional>`  (DoitMain.run, Command.parse_execute).
+   Pass 1: the options of the loader written before the first positional argument (or "--"): the
+   dictionary handed to the command is exactly what the assignments give on an EMPTY dictionary, and
+   everything from the first positional argument on is left for pass 2.  If a value is rejected
+   nothing is taken and the whole command line is left to the command. *)
+Theorem C16_pre_parse : forall conv lst items t pos,
+  wf_spec lst = true -> Forall (item_ok lst) items -> tail_of t pos ->
+  pre_parse conv lst (render items ++ t) =
+  match apply_asgs conv d_empty (asgs_of items) with
+  | Ok d => Ok (d_items d, pos)
+  | ParseError => Ok ([], render items ++ t)
+  | Crash => Crash
+  end.
+Proof. exact pre_parse_render. Qed.
+Print Assumptions C16_pre_parse.
+
+(* ... it holds a key for every option written and for no other, each with the value written last,
+   one entry per key *)
+Theorem C16_pre_parse_values : forall conv lst, wf_spec lst = true -> forall l d, Forall (asg_ok lst) l -> apply_asgs conv d_empty l = Ok d ->
+  (forall k, assigned k l = false -> d_get d k = None) /\
+  (forall o, In o lst -> assigned (o_name o) l = true -> is_list (o_ty o) = false ->
+             exists v, written conv o l v /\ d_get d (o_name o) = Some v) /\
+  keys_ok (d_items d) /\
+  (forall k, mem k (map fst (d_items d)) = assigned k l).
+Proof. exact pre_values. Qed.
+Print Assumptions C16_pre_parse_values.
+
+(* `for key, val in opt_vals.items(): params[key] = val`: the entries of opt_vals replace / extend the
+   items and every key of opt_vals is marked non-default;  params.update(opt_vals) (the code before
+   7ef8d1a) gives the same items and leaves the marks unchanged *)
+Theorem C16_dict_assign : forall d u k,
+  d_get (dict_assign d u) k = match lookup_last u k with Some x => Some x | None => d_get d k end /\
+  mem k (d_nd (dict_assign d u)) = (mem k (d_nd d) || mem k (map fst u))%bool /\
+  d_get (dict_update d u) k = d_get (dict_assign d u) k /\
+  d_nd (dict_update d u) = d_nd d.
+Proof.
+  intros. exact (conj (dict_assign_get u d k) (conj (dict_assign_nd u d k)
+                (conj (eq_trans (dict_update_get d u k) (eq_sym (dict_assign_get u d k))) (dict_update_nd d u)))).
+Qed.
+Print Assumptions C16_dict_assign.
+
+(* Pass 2, Command.parse_execute, with [pre] the units written before the sub-command name (parser lst
+   of the loader) and [post] the units after it (parser st1 of the command): an option written before
+   the name has the value written there -- the LAST occurrence before the name; an occurrence of the
+   same option after the name, its environment variable and its defaults are all overridden; every
+   other key is what parsing the rest alone gives (C16_roundtrip_values for d); the keys marked
+   non-default are those of d and the options written before the name; positional arguments and the
+   parser object unchanged *)
+Theorem C16_two_pass_values : forall conv lst st1 env pre d0 post t pos p args st',
+  wf_spec lst = true -> Forall (item_ok lst) pre -> apply_asgs conv d_empty (asgs_of pre) = Ok d0 ->
+  wf_spec st1 = true -> Forall (item_ok st1) post -> tail_of t pos ->
+  parse_execute conv st1 (d_items d0) env (render post ++ t) = (Ok (p, args), st') ->
+  args = pos /\ st' = st1 /\
+  exists d, parse conv st1 env (render post ++ t) = (Ok (d, pos), st1) /\
+    (forall ol, In ol lst -> assigned (o_name ol) (asgs_of pre) = true -> is_list (o_ty ol) = false ->
+                exists v, written conv ol (asgs_of pre) v /\ d_get p (o_name ol) = Some v) /\
+    (forall k, assigned k (asgs_of pre) = false -> d_get p k = d_get d k) /\
+    (st1 <> [] -> forall k, mem k (d_nd p) = (mem k (d_nd d) || assigned k (asgs_of pre))%bool).
+Proof. exact two_pass_values. Qed.
+Print Assumptions C16_two_pass_values.
+
+(* precedence for the params handed to `execute` (what loader.setup receives):
+   command line before the sub-command name > command line after it > environment variable >
+   configuration (GLOBAL / command section, through overwrite_defaults) > declared default *)
+Theorem C16_two_pass_precedence : forall conv lst st0 cfg st1 env pre d0 post t pos p args st',
+  wf_spec lst = true -> Forall (item_ok lst) pre -> apply_asgs conv d_empty (asgs_of pre) = Ok d0 ->
+  wf_spec st0 = true -> overwrite_defaults conv st0 cfg = (Ok tt, st1) ->
+  Forall (item_ok st1) post -> tail_of t pos ->
+  parse_execute conv st1 (d_items d0) env (render post ++ t) = (Ok (p, args), st') ->
+  args = pos /\ st' = st1 /\
+  exists d, parse conv st1 env (render post ++ t) = (Ok (d, pos), st1) /\
+    (forall ol, In ol lst -> assigned (o_name ol) (asgs_of pre) = true -> is_list (o_ty ol) = false ->
+                exists v, written conv ol (asgs_of pre) v /\ d_get p (o_name ol) = Some v) /\
+    (forall o1, In o1 st1 -> let k := o_name o1 in assigned k (asgs_of pre) = false ->
+       exists o0, find_opt st0 k = Some o0 /\ o1 = set_opt_default o0 (o_default o1) /\
+         d_get p k =
+           if assigned k (asgs_of post) then d_get d k
+           else match env_str env o1 with
+                | Some s => match str2type conv o1 (VStr s) with Ok x => Some x | _ => None end
+                | None => match lookup_last cfg k with
+                          | Some v => match str2type conv o0 v with Ok x => Some x | _ => None end
+                          | None => Some (o_default o0)
+                          end
+                end).
+Proof. exact two_pass_precedence. Qed.
+Print Assumptions C16_two_pass_precedence.
+
+(* DOIT_CONFIG merged afterwards (DoitCmdBase.execute, update_defaults): exactly the keys set by the
+   command line -- before or after the sub-command name -- or by the environment are protected *)
+Theorem C16_two_pass_doit_config : forall conv lst st1 env pre d0 post t pos p args st' dodo,
+  wf_spec lst = true -> Forall (item_ok lst) pre -> apply_asgs conv d_empty (asgs_of pre) = Ok d0 ->
+  wf_spec st1 = true -> Forall (item_ok st1) post -> tail_of t pos ->
+  parse_execute conv st1 (d_items d0) env (render post ++ t) = (Ok (p, args), st') ->
+  forall o1, In o1 st1 -> let k := o_name o1 in
+  d_get (update_defaults p dodo) k =
+    if (assigned k (asgs_of pre) || assigned k (asgs_of post) ||
+        (match env_str env o1 with Some _ => true | None => false end))%bool
+    then d_get p k
+    else match lookup_last dodo k with Some x => Some x | None => d_get p k end.
+Proof. exact two_pass_doit_config. Qed.
+Print Assumptions C16_two_pass_doit_config.
+
+(* the whole chain for the params a command works with after DOIT_CONFIG was merged:
+   command line (before or after the sub-command name; p holds which: C16_two_pass_precedence) >
+   environment variable > DOIT_CONFIG > configuration (GLOBAL / command section) > declared default *)
+Theorem C16_two_pass_final_precedence : forall conv lst st0 cfg st1 env pre d0 post t pos p args st' dodo,
+  wf_spec lst = true -> Forall (item_ok lst) pre -> apply_asgs conv d_empty (asgs_of pre) = Ok d0 ->
+  wf_spec st0 = true -> overwrite_defaults conv st0 cfg = (Ok tt, st1) ->
+  Forall (item_ok st1) post -> tail_of t pos ->
+  parse_execute conv st1 (d_items d0) env (render post ++ t) = (Ok (p, args), st') ->
+  forall o1, In o1 st1 -> let k := o_name o1 in
+  exists o0, find_opt st0 k = Some o0 /\ o1 = set_opt_default o0 (o_default o1) /\
+    d_get (update_defaults p dodo) k =
+      if (assigned k (asgs_of pre) || assigned k (asgs_of post))%bool then d_get p k
+      else match env_str env o1 with
+           | Some s => match str2type conv o1 (VStr s) with Ok x => Some x | _ => None end
+           | None =>
+               match lookup_last dodo k with
+               | Some x => Some x
+               | None => match lookup_last cfg k with
+                         | Some v => match str2type conv o0 v with Ok x => Some x | _ => None end
+                         | None => Some (o_default o0)
+                         end
+               end
+           end.
+Proof. exact two_pass_final_precedence. Qed.
+Print Assumptions C16_two_pass_final_precedence.
+
+(* purity of the two passes: neither the parser of the loader nor the parser of the command (the
+   defaults of their options) changes, executing the same arguments again with the same command object
+   gives the same; any specs, any arguments *)
+Theorem C16_two_pass_pure : forall conv lst st ov env args,
+  snd (parse_only conv lst d_empty args) = lst /\
+  snd (parse_execute conv st ov env args) = st /\
+  (let (r1, st1) := parse_execute conv st ov env args in parse_execute conv st1 ov env args = (r1, st1)).
+Proof.
+  intros. exact (conj (pre_parse_pure conv lst args) (conj (parse_execute_pure conv st ov env args)
+                (parse_execute_twice conv st ov env args))).
+Qed.
+Print Assumptions C16_two_pass_pure.
+
+(* DoitMain.run on `<pre> <rest>`: the command is chosen by the first argument pass 1 leaves (a
+   sub-command name, else `run`) and executes the remaining arguments with the options of pass 1 as
+   opt_vals.  plain_arg: not a NAME=VALUE variable (those process_args takes out; an empty argument is
+   passed on, repair 16042b9); no command of that name (no `run`): exit code 3 *)
+Theorem C16_main_run : forall conv cl env dodo pre t rest d0,
+  wf_spec (mk_parser (c_loader cl)) = true -> Forall (item_ok (mk_parser (c_loader cl))) pre ->
+  tail_of t rest -> Forall plain_arg rest -> not_special (render pre ++ t) ->
+  apply_asgs conv d_empty (asgs_of pre) = Ok d0 ->
+  main_run conv cl env dodo (render pre ++ t) =
+  let (nm, in_args) := select_cmd (c_cmds cl) rest in
+  match find_cmd (c_cmds cl) nm with
+  | Some c => exec_cmd conv cl c (d_items d0) env dodo in_args
+  | None => ParseError
+  end.
+Proof. exact main_run_render. Qed.
+Print Assumptions C16_main_run.
+
+Theorem C16_exec_cmd : forall conv cl c ov env dodo in_args r,
+  exec_cmd conv cl c ov env dodo in_args = Ok r ->
+  exists st1 p st', cmd_parser conv cl c = (Ok tt, st1) /\
+    parse_execute conv st1 ov env in_args = (Ok (p, r_pos r), st') /\
+    r_cmd r = cm_name c /\ r_setup r = p /\ r_final r = (if cm_task c then update_defaults p dodo else p).
+Proof. exact exec_cmd_ok. Qed.
+Print Assumptions C16_exec_cmd.
+
+(* errors (repair a0cef0e: the command object is created inside the try block of DoitMain.run): an
+   ill-typed value or an invalid choice in the configuration of the command (its parser cannot be
+   built), and arguments its parser does not accept, make DoitMain.run return 3 (ParseError); executing
+   a command never raises; the only exception that leaves DoitMain.run (Crash) comes from pass 1 (see
+   C16_pre_list_option_refuted) *)
+Theorem C16_errors_exit_code_3 : forall conv cl c ov env dodo in_args,
+  (fst (cmd_parser conv cl c) <> Ok tt -> exec_cmd conv cl c ov env dodo in_args = ParseError) /\
+  (forall st1, cmd_parser conv cl c = (Ok tt, st1) -> (forall r, fst (parse conv st1 env in_args) <> Ok r) ->
+               exec_cmd conv cl c ov env dodo in_args = ParseError) /\
+  exec_cmd conv cl c ov env dodo in_args <> Crash /\
+  (forall args, main_run conv cl env dodo args = Crash -> pre_parse conv (mk_parser (c_loader cl)) args = Crash).
+Proof.
+  intros. exact (conj (exec_cmd_config_error conv cl c ov env dodo in_args)
+                (conj (fun st1 => exec_cmd_parse_error conv cl c ov env dodo in_args st1)
+                (conj (exec_cmd_no_crash conv cl c ov env dodo in_args) (fun args => main_run_crash conv cl env dodo args)))).
+Qed.
+Print Assumptions C16_errors_exit_code_3.
+
+(* non-vacuity, on the options of doit itself: DodoTaskLoader.cmd_options (cmd_base.py 251-284),
+   DoitCmdBase.base_options, two options of `list` and of `run` *)
+Definition opt_dodo_file : cmd_option := mkopt 5%N (TStr) (VStr "dodo.py") "f" "file" "" [] (Some 104%N).   (* DOIT_FILE *)
+Definition dodo_loader_options : list cmd_option := [
+  (* dodoFile *) opt_dodo_file;
+  (* cwdPath *) mkopt 6%N (TStr) (VNone) "d" "dir" "" [] None;
+  (* seek_file *) mkopt 7%N (TBool) (VBool false) "k" "seek-file" "" [] (Some 106%N)   (* DOIT_SEEK_FILE *)
+].
+Definition ex_cli (cfg : list (string * list (name * value))) : cli :=
+  mkcli [mkopt 1%N (TStr) (VStr ".doit.db") "" "db-file" "" [] None; mkopt 2%N (TStr) (VStr "dbm") "" "backend" "" [] None;
+         mkopt 3%N (TStr) (VStr "json") "" "" "" [] None; mkopt 4%N (TStr) (VStr "md5") "" "check_file_uptodate" "" [] None]
+        2%N ["dbm"; "json"; "sqlite3"] dodo_loader_options
+        [mkcmd "run" true [mkopt 10%N (TOther 0) (VNone) "v" "verbosity" "" [] None; mkopt 9%N (TBool) (VBool false) "c" "continue" "no-continue" [] None];
+         mkcmd "list" true [mkopt 20%N (TBool) (VBool false) "s" "status" "" [] None; mkopt 21%N (TBool) (VBool false) "q" "quiet" "" [] None]]
+        cfg.
+Definition setup_value (r : outcome run_obs) (k : name) : option value :=
+  match r with Ok o => d_get (r_setup o) k | _ => None end.
+Definition final_value (r : outcome run_obs) (k : name) : option value :=
+  match r with Ok o => d_get (r_final o) k | _ => None end.
+(* DOIT_FILE=x.py doit [-f a.py] list [-f b.py], doit.cfg: [GLOBAL] dodoFile = g.py  [list] dodoFile = l.py *)
+Example C16_ex_two_pass :
+  let cfg := [("GLOBAL", [(5%N, VStr "g.py")]); ("list", [(5%N, VStr "l.py")])] in
+  let x := env_of [(104%N, "x.py")] in let noenv := env_of [] in
+  setup_value (main_run conv_ref (ex_cli cfg) x [] ["-f"; "a.py"; "list"]) 5%N = Some (VStr "a.py") /\
+  setup_value (main_run conv_ref (ex_cli cfg) x [] ["--file=a.py"; "list"; "-f"; "b.py"; "-s"]) 5%N = Some (VStr "a.py") /\
+  setup_value (main_run conv_ref (ex_cli cfg) x [] ["-f"; "c.py"; "-fa.py"; "list"]) 5%N = Some (VStr "a.py") /\
+  setup_value (main_run conv_ref (ex_cli cfg) x [] ["list"; "-f"; "b.py"]) 5%N = Some (VStr "b.py") /\
+  setup_value (main_run conv_ref (ex_cli cfg) x [] ["list"]) 5%N = Some (VStr "x.py") /\
+  setup_value (main_run conv_ref (ex_cli cfg) noenv [] ["list"]) 5%N = Some (VStr "l.py") /\
+  setup_value (main_run conv_ref (ex_cli cfg) noenv [] ["run"]) 5%N = Some (VStr "g.py") /\
+  setup_value (main_run conv_ref (ex_cli []) noenv [] ["-k"; "t1"; "-v"; "2"]) 5%N = Some (VStr "dodo.py") /\
+  setup_value (main_run conv_ref (ex_cli []) noenv [] ["-k"; "t1"; "-v"; "2"]) 7%N = Some (VBool true).
+Proof. vm_compute. repeat split; reflexivity. Qed.
+Example C16_ex_two_pass_hyps :
+  wf_spec (mk_parser dodo_loader_options) = true /\
+  (exists st1, cmd_parser conv_ref (ex_cli []) (mkcmd "list" true [mkopt 20%N (TBool) (VBool false) "s" "status" "" [] None; mkopt 21%N (TBool) (VBool false) "q" "quiet" "" [] None])
+               = (Ok tt, st1) /\ wf_spec st1 = true) /\
+  Forall (item_ok (mk_parser dodo_loader_options)) [IShorts [] (Some (opt_dodo_file, false, "a.py"))] /\
+  render [IShorts [] (Some (opt_dodo_file, false, "a.py"))] ++ ["list"; "-s"] = ["-f"; "a.py"; "list"; "-s"] /\
+  (exists d0, apply_asgs conv_ref d_empty (asgs_of [IShorts [] (Some (opt_dodo_file, false, "a.py"))]) = Ok d0 /\
+              d_items d0 = [(5%N, VStr "a.py")]) /\
+  Forall plain_arg ["list"; "-s"; ""] /\ not_special ["-f"; "a.py"; "list"; "-s"].
+Proof.
+  split; [vm_compute; reflexivity|]. split; [eexists; split; vm_compute; reflexivity|].
+  split.
+  { apply Forall_cons; [|apply Forall_nil]. split; [intros o []|]. split; [vm_compute; auto|].
+    split; [reflexivity|]. split; [vm_compute; discriminate|intros H; discriminate H]. }
+  split; [vm_compute; reflexivity|].
+  split; [eexists; split; vm_compute; reflexivity|]. split; [|vm_compute; reflexivity].
+  apply Forall_cons; [right; reflexivity|]. apply Forall_cons; [left; reflexivity|].
+  apply Forall_cons; [right; reflexivity|]. apply Forall_nil.
+Qed.
+
+(* a value written before the sub-command name beats DOIT_CONFIG too (repair 7ef8d1a), like one
+   written after it *)
+Example C16_cmdline_beats_doit_config :
+  let dodo := [(5%N, VStr "z.py")] in
+  setup_value (main_run conv_ref (ex_cli []) (env_of []) dodo ["-f"; "a.py"; "list"]) 5%N = Some (VStr "a.py") /\
+  final_value (main_run conv_ref (ex_cli []) (env_of []) dodo ["-f"; "a.py"; "list"]) 5%N = Some (VStr "a.py") /\
+  final_value (main_run conv_ref (ex_cli []) (env_of []) dodo ["list"; "-f"; "a.py"]) 5%N = Some (VStr "a.py") /\
+  final_value (main_run conv_ref (ex_cli []) (env_of []) dodo ["list"]) 5%N = Some (VStr "z.py").
+Proof. vm_compute. repeat split; reflexivity. Qed.
+
+(* the code before the repair 7ef8d1a: `params.update(self.opt_vals)` does not go through __setitem__,
+   the value written before the sub-command name was not marked non-default and an entry of
+   DOIT_CONFIG for the same option replaced it after loader.setup (-f a.py given, DOIT_CONFIG
+   {'dodoFile': 'z.py'}); next to it the current code on the same input *)
+Theorem C16_pre_cmdline_doit_config_legacy_refuted : exists st ov env dodo p,
+  fst (parse_execute_update conv_ref st ov env []) = Ok (p, []) /\ ov = [(5%N, VStr "a.py")] /\
+  d_get p 5%N = Some (VStr "a.py") /\ d_get (update_defaults p dodo) 5%N = Some (VStr "z.py") /\
+  exists p', fst (parse_execute conv_ref st ov env []) = Ok (p', []) /\
+             d_get (update_defaults p' dodo) 5%N = Some (VStr "a.py").
+Proof.
+  exists dodo_loader_options, [(5%N, VStr "a.py")], (env_of []), [(5%N, VStr "z.py")]. eexists.
+  split; [vm_compute; reflexivity|]. split; [reflexivity|]. split; [vm_compute; reflexivity|].
+  split; [vm_compute; reflexivity|]. eexists. split; vm_compute; reflexivity.
+Qed.
+Print Assumptions C16_pre_cmdline_doit_config_legacy_refuted.
+
+(* KNOWN finding pre-list-option-keyerror, not repaired: pass 1 starts from a dictionary without
+   defaults: a LIST option of a loader written before the sub-command name has no list to extend
+   (KeyError), the exception leaves DoitMain.run *)
+Theorem C16_pre_list_option_refuted : exists cl argv,
+  main_run conv_ref cl (env_of []) [] argv = Crash /\ argv = ["-m"; "v"; "list"] /\
+  c_loader cl = [mkopt 30%N TList (VList []) "m" "mm" "" [] None].
+Proof.
+  exists (mkcli [] 2%N [] [mkopt 30%N TList (VList []) "m" "mm" "" [] None] [mkcmd "run" true []; mkcmd "list" true []] []),
+         ["-m"; "v"; "list"].
+  vm_compute. repeat split; reflexivity.
+Qed.
+Print Assumptions C16_pre_list_option_refuted.
+
+(* on doit's own options: an ill-typed value in the configuration and on the command line: exit code
+   3; an empty positional argument is handed to the command (repairs a0cef0e, 16042b9) *)
+Example C16_ex_errors :
+  main_run conv_ref (ex_cli [("GLOBAL", [(10%N, VStr "x")])]) (env_of []) [] ["run"] = ParseError /\
+  main_run conv_ref (ex_cli [("run", [(10%N, VStr "x")])]) (env_of []) [] ["-f"; "a.py"; "t1"] = ParseError /\
+  main_run conv_ref (ex_cli [("run", [(10%N, VStr "x")])]) (env_of []) [] ["list"] <> ParseError /\
+  main_run conv_ref (ex_cli []) (env_of []) [] ["run"; "--verbosity=x"] = ParseError /\
+  main_run conv_ref (ex_cli []) (env_of []) [] ["list"; "--zz"] = ParseError /\
+  (exists r, main_run conv_ref (ex_cli []) (env_of []) [] ["list"; ""; "t"] = Ok r /\ r_pos r = [""; "t"]).
+Proof.
+  vm_compute. repeat split; try reflexivity; try discriminate. eexists. split; reflexivity.
+Qed.
+
+(* NOT the code: installing opt_vals as defaults of the parser of the command before parsing
+   (parse_execute_as_defaults) instead of writing them over the result: the environment variable wins
+   over the command line, and the parser object is changed *)
+Theorem C16_opt_vals_as_defaults_refuted : exists st ov env argv d,
+  fst (parse_execute_as_defaults conv_ref st ov env argv) = Ok (d, []) /\
+  ov = [(5%N, VStr "a.py")] /\ d_get d 5%N = Some (VStr "x.py") /\
+  snd (parse_execute_as_defaults conv_ref st ov env argv) <> st /\
+  exists d', fst (parse_execute conv_ref st ov env argv) = Ok (d', []) /\ d_get d' 5%N = Some (VStr "a.py").
+Proof.
+  exists dodo_loader_options, [(5%N, VStr "a.py")], (env_of [(104%N, "x.py")]), []. eexists.
+  split; [vm_compute; reflexivity|]. split; [reflexivity|]. split; [vm_compute; reflexivity|].
+  split; [vm_compute; intros H; inversion H|]. eexists. split; vm_compute; reflexivity.
+Qed.
+Print Assumptions C16_opt_vals_as_defaults_refuted.
 
 (* ---------------------------------------------------------------- non-vacuity *)
 (* the options of `doit run` (doit/cmd_run.py + cmd_base.py, extracted from Run().get_options()) *)
